@@ -106,6 +106,16 @@ def run_case(ctx, case):
         ne = counts[dim]
         coincide = sorted(d for d in counts if d != dim and counts[d] == ne)
         P_src = positions(gs_twin, kind)
+        # tie tolerance (radians).  1e-9 normally.  Elements inside the library's pole-snapping band have a lon/lat position (at the
+        # pole) and a Cartesian one (up to 1.42e-4 rad away): either may be used.  Cartesian coordinates in metres make the chord
+        # |R p - q|^2 = R^2 + 1 - 2 R p.q resolve angles only to eps * R / (2 sin(angle)).
+        nm_ = {"nodes": "node", "edge centers": "edge", "face centers": "face"}[kind]
+        try:
+            R_src = float(np.median(np.sqrt(np.asarray(getattr(gs_twin, nm_ + "_x").values, float) ** 2 + np.asarray(getattr(gs_twin, nm_ + "_y").values, float) ** 2
+                                             + np.asarray(getattr(gs_twin, nm_ + "_z").values, float) ** 2)))
+        except Exception:
+            R_src = 1.0
+        src_band = bool(np.any(np.abs(P_src[:, 2]) > 1 - 1.01e-8))
         # ---- data whose value is the element id
         ids = np.arange(ne, dtype=float)
         # build with leading dims in order t0, t1 (outermost first)
@@ -122,7 +132,9 @@ def run_case(ctx, case):
             P_dst = positions(gd_twin, remap_to)
             nd = len(P_dst)
             D = nn.distances("haversine", P_src, None, q_xyz=P_dst)  # (nd, ne)
+            dst_band = bool(np.any(np.abs(P_dst[:, 2]) > 1 - 1.01e-8))
             for coord_type in ("spherical", "cartesian"):
+                TIE = 3e-4 if (src_band or dst_band) else (1e-9 if (coord_type == "spherical" or R_src < 10) else 1e-9 + 1e-14 * R_src)
                 sig = {"data_on": dim, "remap_to": remap_to, "coord_type": coord_type, "coincide": "+".join(coincide), "supplied_centres": supplied and dim == "n_face",
                        "rank": len(lead) + 1, "same_grid": case["same"], "single_dest": nd == 1}
                 det = {"case": case}
@@ -146,13 +158,13 @@ def run_case(ctx, case):
                                 good, why = False, {"why": "value is not a source element id of this leading index", "row": row[:6].tolist()}
                                 break
                             dsel = D[np.arange(nd), idx]
-                            bad = np.argwhere(dsel > mins + 1e-9)
+                            bad = np.argwhere(dsel > mins + TIE)
                             if len(bad):
                                 b = int(bad[0][0])
                                 good, why = False, {"why": "not the nearest", "dest": b, "chosen": int(idx[b]), "chosen_dist": float(dsel[b]), "nearest": int(np.argmin(D[b])), "nearest_dist": float(mins[b])}
                                 break
                         ctx.check("nn_nearest", good, sig, dict(det, **(why or {})))
-                        if case["same"] and KINDS[dim] == remap_to:
+                        if case["same"] and KINDS[dim] == remap_to and not src_band:  # (elements reported at the very same point - both snapped to a pole - have no identity)
                             ctx.check("nn_self_identity", np.array_equal(vals, data), sig, det)
                     # second destination, same counts, same arguments, same source grid object
                     with warnings.catch_warnings():
@@ -165,7 +177,7 @@ def run_case(ctx, case):
                     if good2:
                         for row in (v2 - off).reshape(-1, len(P2)):
                             idx2 = np.rint(row).astype(int)
-                            if np.any(idx2 < 0) or np.any(idx2 >= ne) or np.any(D2[np.arange(len(P2)), idx2] > D2.min(axis=1) + 1e-9):
+                            if np.any(idx2 < 0) or np.any(idx2 >= ne) or np.any(D2[np.arange(len(P2)), idx2] > D2.min(axis=1) + max(TIE, 3e-4 if bool(np.any(np.abs(P2[:, 2]) > 1 - 1.01e-8)) else 0.0)):
                                 good2 = False
                                 break
                     ctx.check("nn_nearest", good2, dict(sig, destination="second_with_same_counts"), det)
@@ -193,7 +205,7 @@ def run_case(ctx, case):
                         why = "negative weight"
                     elif np.any(np.abs(W.sum(axis=1) - 1.0) > 1e-12):
                         why = "weights do not sum to 1"
-                    elif np.any((W > 0) & (D > kth[:, None] + 1e-9)):
+                    elif np.any((W > 0) & (D > kth[:, None] + TIE)):
                         why = "weight on an element that is not among the k nearest"
                     elif np.any((W > 0).sum(axis=1) > k):
                         why = "more than k weighted elements"
@@ -202,11 +214,11 @@ def run_case(ctx, case):
                             sup = np.nonzero(W[b] > 0)[0]
                             o = sup[np.argsort(D[b, sup])]
                             dd, ww = D[b, o], W[b, o]
-                            inc = (np.diff(ww) > 1e-12) & (np.diff(dd) > 1e-9)
+                            inc = (np.diff(ww) > 1e-12) & (np.diff(dd) > TIE)
                             if np.any(inc):
                                 why = "weight increases with distance"
                                 break
-                            if len(sup) < k and not np.any(np.abs(np.sort(D[b])[: k + 1][-1] - kth[b]) < 1e-9):
+                            if len(sup) < k and not np.any(np.abs(np.sort(D[b])[: k + 1][-1] - kth[b]) < TIE):
                                 why = "fewer than k weighted elements"
                                 break
                     ctx.check("idw_weights", why is None, dict(sigw, why=why or ""), dict(det, why=why))
